@@ -25,7 +25,7 @@ ASSUMPTIONS = ["termination and in-bounds are THEOREMS only for the modelled ker
                "out-of-bounds reads in interpreted mode wrap silently: they are caught indirectly, by the other properties' "
                "exact correspondence with models in which an out-of-range read returns a default value",
                "compiled (JIT) execution is out of scope (C07 not applicable); NUMBA_BOUNDSCHECK is therefore not used"]
-MUST_OK = {"index_top_left", "add_pits_dup_use", "add_pits_dup_xy_use", "from_array_ldd_out", "from_array_d8_out", "from_array_d8", "from_array_nextxy", "from_array_infer"}       # valid arguments: any exception is a failure
+MUST_OK = {"region_bounds_ids", "basin_bounds_ids", "index_top_left", "add_pits_dup_use", "add_pits_dup_xy_use", "from_array_ldd_out", "from_array_d8_out", "from_array_d8", "from_array_nextxy", "from_array_infer"}       # valid arguments: any exception is a failure
 # arguments outside the documented domain: the documented ValueError / IndexError is the only acceptable outcome (points
 # exactly on the right / bottom edge of the raster lie outside its half-open cells: round-5 seed)
 MUST_RAISE = {"bad_shape", "bad_index", "bad_unit", "bad_direction", "index_right_edge", "index_bottom_edge", "path_xy_right_edge", "basins_xy_bottom_edge"}
@@ -168,6 +168,9 @@ def _build_ops(nr, nc, ds, rng):
         ("fill_conn5", lambda f: dem.fill_depressions(I["elv_nodata"], nodata=-9999, connectivity=5)),
         ("slope", lambda f: dem.slope(I["elv_nodata"], nodata=-9999)), ("slope_latlon", lambda f: dem.slope(I["elv_nodata"], nodata=-9999, latlon=True)),
         ("spread2d", lambda f: gis_utils.spread2d(I["obs"], I["mask_full"], 0, I["frc"])), ("spread2d_latlon", lambda f: gis_utils.spread2d(I["obs"], None, 0, None, True, f.transform)),
+        # bounding boxes of label maps whose ids are not 1..n (round-6 seed: a list compacted over the labels indexed by label - 1)
+        ("region_bounds_ids", lambda f: _bounds_check(regions, f, I["regions"] * 3 + 4)),
+        ("basin_bounds_ids", lambda f: _bounds_check(regions, f, f.basins(idxs=I["outl"], ids=np.array([3, 7, 8, 20, 21, 40][:len(I["outl"])], dtype=np.uint32)), api=True)),
         ("region_bounds", lambda f: regions.region_bounds(I["regions"])), ("region_slices", lambda f: regions.region_slices(I["regions"])),
         ("region_sum", lambda f: regions.region_sum(I["full"], I["regions"])), ("region_area", lambda f: regions.region_area(I["regions"])),
         ("region_outlets", lambda f: regions.region_outlets(I["regions"], f.idxs_ds, f.idxs_seq)),
@@ -184,6 +187,23 @@ def _build_ops(nr, nc, ds, rng):
         ("bad_unit", lambda f: f.upstream_area("furlong")), ("bad_direction", lambda f: f.fillnodata(I["data"], -9999, direction="sideways")),
     ]
     return ops, I
+
+
+def _bounds_check(regions, f, lab, api=False):
+    """bounding boxes per label against a brute-force scan (identity-like transform x = col, y = -row)"""
+    lab = np.asarray(lab)
+    lbs, bboxs, total = f.basin_bounds(basins=lab) if api else regions.region_bounds(lab, transform=f.transform)
+    want = {}
+    for r in range(lab.shape[0]):
+        for c in range(lab.shape[1]):
+            v = int(lab[r, c])
+            if v > 0:
+                b = want.setdefault(v, [c, -(r + 1), c + 1, -r])
+                b[0], b[1], b[2], b[3] = min(b[0], c), min(b[1], -(r + 1)), max(b[2], c + 1), max(b[3], -r)
+    got = {int(l): [float(x) for x in bb] for l, bb in zip(lbs, bboxs)}
+    if got != {k: [float(x) for x in v] for k, v in want.items()}:
+        raise AssertionError(f"bounding boxes {got} expected {want}")
+    return lbs
 
 
 def _dump_load(f):
